@@ -19,12 +19,13 @@ OPTION_MENU = [("input_time_symbol", ["s", "time", "T"]), ("output_timestep_symb
                ("integration_accuracy_abs", ["1E-9"]), ("expression_simplification_threshold", ["500"])]
 
 
-def run_fresh(calls, hashseed=None, timeout=100):
+def run_fresh(calls, hashseed=None, timeout=100, standin=False):
+    standin = standin or any(not c.get("flags", {}).get("disable_stiffness_check", False) for c in calls)
     env = dict(os.environ)
     env["PYTHONPATH"] = tb.VERIF + os.pathsep + tb.REPO + os.pathsep + env.get("PYTHONPATH", "")
     if hashseed is not None:
         env["PYTHONHASHSEED"] = str(hashseed)
-    p = subprocess.run([sys.executable, os.path.join(tb.VERIF, "harness", "core", "c07_runner.py")], input=json.dumps({"calls": calls}),
+    p = subprocess.run([sys.executable, os.path.join(tb.VERIF, "harness", "core", "c07_runner.py")], input=json.dumps({"calls": calls, "standin": standin}),
                        stdout=subprocess.PIPE, stderr=subprocess.PIPE, text=True, timeout=timeout, env=env, cwd=tb.REPO)
     if p.returncode != 0 or not p.stdout.strip():
         return {"runner_error": p.stderr[-500:]}
@@ -35,6 +36,26 @@ def case_history(case):
     out = {"history": run_fresh(case["calls"], hashseed=case.get("hashseed_hist", 0))}
     out["probe_alone"] = {hs: run_fresh([case["calls"][-1]], hashseed=hs) for hs in [case.get("hashseed_hist", 0)] + list(case["hashseeds"])}
     return out
+
+
+STIFF_SYSTEMS = [
+    {"dynamics": [{"expression": "x'' = -x**3 - x'/tau", "initial_values": {"x": "1", "x'": "0"}}], "parameters": {"tau": "0.05"}},
+    {"dynamics": [{"expression": "V' = -V/tau + I*(1 - V**2)", "initial_value": "0"}, {"expression": "I' = -I/tau_s", "initial_value": "1"}],
+     "parameters": {"tau": "0.01", "tau_s": "0.002"}},
+]
+
+
+def gen_stiff_call(rng):
+    """a call with the stiffness test ENABLED (PyGSL stand-in) and a stimuli block that names a derivative, or a target twice"""
+    ind = json.loads(json.dumps(rng.choice(STIFF_SYSTEMS)))
+    names = [d["expression"].split("=")[0].strip() for d in ind["dynamics"]]
+    base = names[0].replace("'", "")
+    targets = [[base + "'", base, base + "'"], [base + "'"], [base, base]][rng.randrange(3)] if names[0].count("'") == 2 else [[base, base], [base]][rng.randrange(2)]
+    ind["stimuli"] = [{"type": "regular", "rate": "200.", "variables": list(targets)}]
+    if rng.random() < 0.5:
+        ind["stimuli"].append({"type": "list", "list": "3E-3 7E-3", "variables": [targets[0]]})
+    ind["options"] = {"sim_time": "0.02", "max_step_size": "0.005"}
+    return {"indict": ind, "flags": {}, "kind": "stiffness-checked"}
 
 
 def gen_call(rng, kind=None):
@@ -117,7 +138,7 @@ def run(ctx, driver):
     tb.import_toolbox()
     quick = ctx.tier == "quick"
     ctx.rule = ("random histories of 1-4 analysis() calls (plain, with options blocks, with a simplify_expression argument, with other flags, failing on malformed "
-                "input, failing on an unknown option after a valid one, without dynamics) followed by a probe call, all in one fresh interpreter, vs the probe alone in "
+                "input, failing on an unknown option after a valid one, without dynamics, stiffness-checked through the PyGSL stand-in with a stimuli block) followed by a probe call, all in one fresh interpreter, vs the probe alone in "
                 "fresh interpreters under 2 PYTHONHASHSEED values; distinct = distinct histories; non-trivial = history contains a call that writes an option or fails")
     rng = ctx.rng("hist")
     cases = [c["case"] for c in ctx.corpus() if "case" in c and "calls" in c["case"]]
@@ -142,6 +163,13 @@ def run(ctx, driver):
             if rng.random() < 0.5:
                 dyn.append({"expression": "V_m' = -V_m / tau_m + %s" % nm, "initial_value": "0"})
             probe = {"indict": {"dynamics": dyn}, "flags": {"disable_stiffness_check": True}, "kind": "option-named"}
+        if i % 8 == 6:
+            # a stiffness-checked call (stand-in for PyGSL) with a stimuli block: as a member of the history or as the probe
+            sc = gen_stiff_call(rng)
+            if rng.random() < 0.5:
+                hist.insert(rng.randrange(len(hist) + 1), sc)
+            else:
+                probe = sc
         cases.append({"calls": hist + [probe], "hashseeds": [1, 4242] if quick else [1, 4242, 77, 123456]})
     resets = reset_policy_from_source()
     ctx.cov["resets_first_from_source"] = resets
